@@ -288,7 +288,9 @@ def _verify_unit(unit_path, repo, tier, twin, probe_only):
                         rl_hit = True
                 return tr_, failed_, rl_hit
             tr, failed_lines, rl_hit = twin_run(rlimit)
-            if rl_hit and any(k not in failed_lines for k in probe_lines):
+            # quick tier: a probe the solver could neither prove nor refute within the unit's rlimit is reported as
+            # inconclusive_rlimit (the context was NOT found contradictory within the budget); thorough tier: retry at 6x
+            if rl_hit and tier != 'quick' and any(k not in failed_lines for k in probe_lines):
                 tr2, failed2, rl_hit = twin_run(rlimit * 6)
                 failed_lines |= failed2
                 tr = tr2
